@@ -769,8 +769,26 @@ Theorem build_ok rules rl :
 Proof.
   intros Hwf H. unfold build_rule_list in H.
   destruct (sort_points_facts rules (wf_nodup _ Hwf)) as (A & B & C).
-  destruct (points_of rules) as [|p0 ps] eqn:E; [discriminate|]. rewrite <- E in *.
+  destruct (points_of rules) as [|p0 ps] eqn:E; [discriminate|]. rewrite <- E in *. cbv zeta in H.
+  destruct (sort_points (points_of rules)) as [|p sp] eqn:Es; [discriminate|].
+  destruct (is_nil (p_key p)); [|discriminate]. rewrite <- Es in *.
   apply (sweep_ranges rules (sort_points (points_of rules)) Hwf A B C rl H).
+Qed.
+
+(* since the fix 4f573f0: an accepted rule set has a rule that starts at the empty key *)
+Lemma build_first_boundary_empty rules rl :
+  build_rule_list rules = inr rl -> boundary rules [].
+Proof.
+  intros H. unfold build_rule_list in H.
+  destruct (points_of rules) as [|p0 ps] eqn:E; [discriminate|]. rewrite <- E in *. cbv zeta in H.
+  destruct (sort_points (points_of rules)) as [|p sp] eqn:Es; [discriminate|].
+  destruct (is_nil (p_key p)) eqn:En; [|discriminate].
+  assert (Hk : p_key p = []) by (destruct (p_key p); [reflexivity|discriminate]).
+  assert (Hp : In p (points_of rules)).
+  { apply (sort_by_In (fun a b => key_cmp (p_key a) (p_key b))). unfold sort_points in Es. rewrite Es. left; reflexivity. }
+  apply in_points_of in Hp as [Hr [Hs|[He Hne]]]; exists (p_rule p); split; try exact Hr.
+  - left. rewrite <- Hk. rewrite Hs at 1. reflexivity.
+  - right. split; [rewrite <- Hk; rewrite He at 1; reflexivity|exact Hne].
 Qed.
 
 (* which of several points with the same key is processed first does not matter: any sorted
@@ -967,60 +985,207 @@ Proof.
     split; [exact Hne|]. rewrite <- Ha. exact Hc.
 Qed.
 
-(* ---------- a rejected or failed update only touches the group pointers of the served rules ---------- *)
+(* an accepted rule set leaves no key without a valid rule set *)
+Theorem accepted_covers_every_key_pf rules rl k :
+  wf_rules rules -> build_rule_list rules = inr rl ->
+  get_rules_by_key rl k <> [] /\ check_apply_rules (prepare_rules_for_apply (get_rules_by_key rl k)) = None.
+Proof.
+  intros Hwf H. apply (covered_above_first_boundary rules rl k Hwf H).
+  exists []. split; [eapply build_first_boundary_empty; exact H|apply nil_least].
+Qed.
+
+(* ---------- ruleConfig.adjust ---------- *)
 Definition strip (r : rule) : rule := set_group r None.
+Definition strip_rules (m : rmap) : rmap := map (fun kr => (fst kr, strip (snd kr))) m.
+
+Lemma set_group_strip r g : set_group (strip r) g = set_group r g.
+Proof. destruct r; reflexivity. Qed.
+Lemma set_group_twice r a b : set_group (set_group r a) b = set_group r b.
+Proof. destruct r; reflexivity. Qed.
+Lemma r_gid_set_group r g : r_gid (set_group r g) = r_gid r.
+Proof. destruct r; reflexivity. Qed.
+
+Definition add_default (gs : gmap) (kr : (id * id) * rule) : gmap :=
+  match gget (r_gid (snd kr)) gs with
+  | Some _ => gs
+  | None => mset key_cmp (r_gid (snd kr)) (default_group (r_gid (snd kr))) gs
+  end.
+
+Lemma config_adjust_unfold c :
+  config_adjust c =
+  let g1 := fold_left add_default (c_rules c) (filter (fun kg => negb (is_default (snd kg))) (c_groups c)) in
+  Config (map (fun kr => (fst kr, set_group (snd kr) (gget (r_gid (snd kr)) g1))) (c_rules c)) g1.
+Proof. reflexivity. Qed.
+
+Lemma fold_add_default_map (f : rule -> rule) (Hf : forall r, r_gid (f r) = r_gid r) l : forall g,
+  fold_left add_default (map (fun kr => (fst kr, f (snd kr))) l) g = fold_left add_default l g.
+Proof.
+  induction l as [|[k r] rest IH]; intros g; [reflexivity|]. cbn [map fold_left].
+  unfold add_default at 2 4. cbn [fst snd]. rewrite Hf. apply IH.
+Qed.
+
+(* adjust() does not read the group pointers *)
+Lemma config_adjust_via_strip c :
+  config_adjust c = config_adjust (Config (strip_rules (c_rules c)) (c_groups c)).
+Proof.
+  rewrite !config_adjust_unfold. cbn [c_rules c_groups]. unfold strip_rules.
+  rewrite (fold_add_default_map strip (fun r => r_gid_set_group r None)). cbv zeta. f_equal.
+  rewrite map_map. apply map_ext. intros [k r]. cbn [fst snd]. unfold strip at 2.
+  rewrite r_gid_set_group, set_group_strip. reflexivity.
+Qed.
+
+Lemma filter_nd_twice (m : gmap) :
+  filter (fun kg => negb (is_default (snd kg))) (filter (fun kg => negb (is_default (snd kg))) m) =
+  filter (fun kg => negb (is_default (snd kg))) m.
+Proof.
+  induction m as [|x r IH]; cbn; [reflexivity|].
+  destruct (negb (is_default (snd x))) eqn:E; cbn; rewrite ?E, IH; reflexivity.
+Qed.
+
+Lemma filter_nd_add_default_step gs kr :
+  filter (fun kg => negb (is_default (snd kg))) (add_default gs kr) =
+  filter (fun kg : id * group => negb (is_default (snd kg))) gs.
+Proof.
+  unfold add_default. destruct (gget (r_gid (snd kr)) gs) eqn:E; [reflexivity|].
+  set (gid := r_gid (snd kr)) in *. clearbody gid. unfold gget in E.
+  induction gs as [|[k' g'] r IH]; cbn; [reflexivity|]. cbn in E.
+  destruct (key_cmp gid k') eqn:Ec; [discriminate| |].
+  - cbn. reflexivity.
+  - cbn. rewrite (IH E). reflexivity.
+Qed.
+
+Lemma filter_nd_fold_add_default l : forall gs,
+  filter (fun kg => negb (is_default (snd kg))) (fold_left add_default l gs) =
+  filter (fun kg : id * group => negb (is_default (snd kg))) gs.
+Proof.
+  induction l as [|kr rest IH]; intros gs; [reflexivity|]. cbn [fold_left].
+  rewrite IH. apply filter_nd_add_default_step.
+Qed.
+
+(* adjust() is idempotent: every configuration a RuleManager serves is a fixed point of it *)
+Theorem config_adjust_idem c : config_adjust (config_adjust c) = config_adjust c.
+Proof.
+  rewrite (config_adjust_unfold c). cbv zeta.
+  set (g0 := filter (fun kg => negb (is_default (snd kg))) (c_groups c)).
+  set (g1 := fold_left add_default (c_rules c) g0).
+  rewrite config_adjust_unfold. cbn [c_rules c_groups]. cbv zeta.
+  assert (E0 : filter (fun kg => negb (is_default (snd kg))) g1 = g0).
+  { subst g1. rewrite filter_nd_fold_add_default. subst g0. apply filter_nd_twice. }
+  rewrite E0.
+  rewrite (fold_add_default_map (fun r => set_group r (gget (r_gid r) g1))
+             (fun r => r_gid_set_group r (gget (r_gid r) g1)) (c_rules c) g0).
+  fold g1. f_equal. rewrite map_map. apply map_ext. intros [k r]. cbn [fst snd].
+  rewrite r_gid_set_group, set_group_twice. reflexivity.
+Qed.
+
+Definition canonical (c : config) : Prop := config_adjust c = c.
 
 Lemma patch_adjust_keeps c p :
   c_groups (fst (patch_adjust c p)) = c_groups c /\
-  map (fun kr => (fst kr, strip (snd kr))) (c_rules (fst (patch_adjust c p))) =
-  map (fun kr => (fst kr, strip (snd kr))) (c_rules c).
+  strip_rules (c_rules (fst (patch_adjust c p))) = strip_rules (c_rules c).
 Proof.
-  unfold patch_adjust. cbn [fst c_groups c_rules]. split; [reflexivity|].
+  unfold patch_adjust, strip_rules. cbn [fst c_groups c_rules]. split; [reflexivity|].
   rewrite map_map. apply map_ext. intros [k r]. cbn [fst snd].
-  destruct (mget pair_cmp k (m_rules p)); reflexivity.
+  destruct (mget pair_cmp k (m_rules p)); [reflexivity|]. cbn [fst snd]. unfold strip. rewrite set_group_twice. reflexivity.
 Qed.
 
-Theorem failed_update_keeps_served m s p order f m' s' e ok :
+(* the served configuration after the error paths of tryCommitPatch (patch.adjust, then ruleConfig.adjust) *)
+Lemma readjusted_is_served c p : canonical c -> config_adjust (fst (patch_adjust c p)) = c.
+Proof.
+  intros Hc. destruct (patch_adjust_keeps c p) as [K1 K2].
+  rewrite config_adjust_via_strip, K1, K2, <- config_adjust_via_strip. exact Hc.
+Qed.
+
+(* a rejected or failed update leaves the RuleManager exactly as it was (and the storage too when the
+   patch was rejected) *)
+Theorem failed_update_changes_nothing m s p order f m' s' e ok :
+  canonical (m_conf m) ->
   try_commit m s p order f = (m', s', Some e, ok) ->
-  m_list m' = m_list m /\ c_groups (m_conf m') = c_groups (m_conf m) /\
-  map (fun kr => (fst kr, strip (snd kr))) (c_rules (m_conf m')) =
-  map (fun kr => (fst kr, strip (snd kr))) (c_rules (m_conf m)) /\
-  (e = EBuild -> s' = s).
+  m' = m /\ (e = EBuild -> s' = s).
 Proof.
-  unfold try_commit. intros H.
-  pose proof (patch_adjust_keeps (m_conf m) p) as [K1 K2].
-  destruct (patch_adjust (m_conf m) p) as [c1 p1]. cbn [fst] in *.
+  intros Hc H. unfold try_commit in H.
+  pose proof (readjusted_is_served (m_conf m) p Hc) as R.
+  destruct (patch_adjust (m_conf m) p) as [c1 p1]. cbn [fst] in R.
   destruct (build_rule_list (patch_view c1 p1)) as [be|rl].
-  - inversion H; subst. cbn. auto.
+  - inversion H; subst. rewrite R. split; [destruct m; reflexivity|reflexivity].
   - destruct (save_patch (patch_trim c1 p1) order f s) as [[s1 failed] ok1].
-    destruct failed; inversion H; subst. cbn. repeat split; auto. discriminate.
+    destruct failed; inversion H; subst. rewrite R. split; [destruct m; reflexivity|discriminate].
 Qed.
 
-(* every served rule points to the group the configuration holds for its group id *)
-Definition conf_adjusted (c : config) : Prop :=
-  forall k r, In (k, r) (c_rules c) -> r_group r = Some (c_get_group c (r_gid r)).
-
-Lemma set_group_same r : set_group r (r_group r) = r.
-Proof. destruct r; reflexivity. Qed.
-
-(* ... and nothing at all when the update does not touch a group *)
-Theorem failed_update_without_group_change m s p order f m' s' e ok :
-  conf_adjusted (m_conf m) -> m_groups p = [] ->
-  try_commit m s p order f = (m', s', Some e, ok) -> m' = m.
+(* every configuration the state machine serves is canonical *)
+Lemma try_commit_canonical m s p order f m' s' e ok :
+  try_commit m s p order f = (m', s', e, ok) -> canonical (m_conf m').
 Proof.
-  intros Hadj Hg H. unfold try_commit in H.
-  assert (Ec : fst (patch_adjust (m_conf m) p) = m_conf m).
-  { unfold patch_adjust. cbn [fst]. destruct (m_conf m) as [rules groups] eqn:Ecf. f_equal.
-    cbn [c_rules c_groups]. rewrite <- (map_id rules) at 2. apply map_ext_in. intros [k r] Hin. cbn [fst snd].
-    destruct (mget pair_cmp k (m_rules p)); [reflexivity|]. f_equal.
-    specialize (Hadj k r). cbn [c_rules] in Hadj.
-    transitivity (set_group r (r_group r)); [|apply set_group_same]. f_equal.
-    rewrite (Hadj Hin). unfold p_get_group, c_get_group. rewrite Hg. reflexivity. }
-  destruct (patch_adjust (m_conf m) p) as [c1 p1]. cbn [fst] in Ec. subst c1.
-  destruct (build_rule_list (patch_view (m_conf m) p1)) as [be|rl].
-  - inversion H; subst. destruct m; reflexivity.
-  - destruct (save_patch (patch_trim (m_conf m) p1) order f s) as [[s1 failed] ok1].
-    destruct failed; inversion H; subst. destruct m; reflexivity.
+  unfold try_commit. intros H. destruct (patch_adjust (m_conf m) p) as [c1 p1].
+  destruct (build_rule_list (patch_view c1 p1)) as [be|rl].
+  - inversion H; subst. apply config_adjust_idem.
+  - destruct (save_patch (patch_trim c1 p1) order f s) as [[s1 failed] ok1].
+    destruct failed; inversion H; subst; cbn [m_conf]; [apply config_adjust_idem|].
+    unfold patch_commit. apply config_adjust_idem.
+Qed.
+
+Lemma initialize_canonical s mr m s' : initialize s mr = (inl m, s') -> canonical (m_conf m).
+Proof.
+  unfold initialize. intros H.
+  destruct (match la_rules (load_rules s) with [] => _ | _ => _ end) as [rules s3].
+  destruct (build_rule_list _) as [e|rl]; inversion H; subst. apply config_adjust_idem.
+Qed.
+
+Definition live_canonical (st : state) : Prop :=
+  match st_live st with Some m => canonical (m_conf m) | None => True end.
+
+Lemma step_update_canonical st u f w : live_canonical st -> live_canonical (fst (step_update st u f w)).
+Proof.
+  unfold live_canonical, step_update. intros Hst.
+  destruct (st_live st) as [m|] eqn:El; [|cbn; rewrite El; exact I].
+  destruct (make_patch (m_conf m) u) as [p|]; [|cbn; rewrite El; exact Hst].
+  destruct (try_commit m (st_store st) p w f) as [[[m' s'] e] ok] eqn:Et. cbn [fst st_live].
+  eapply try_commit_canonical; exact Et.
+Qed.
+
+Lemma step_canonical st o : live_canonical st -> live_canonical (fst (step st o)).
+Proof.
+  intros Hst. destruct o as [mr|u f w|u w|k v|k]; cbn [step].
+  - destruct (initialize (st_store st) mr) as [[m|e] s'] eqn:Ei; cbn; [|exact I].
+    eapply initialize_canonical; exact Ei.
+  - apply step_update_canonical; exact Hst.
+  - apply step_update_canonical; exact Hst.
+  - exact Hst.
+  - exact Hst.
+Qed.
+
+Theorem reachable_canonical ops : live_canonical (run_state step init_state ops).
+Proof.
+  assert (G : forall ops st, live_canonical st -> live_canonical (run_state step st ops)).
+  { clear. induction ops as [|o rest IH]; intros st H; [exact H|]. cbn [run_state]. apply IH. apply step_canonical; exact H. }
+  apply G. exact I.
+Qed.
+
+(* in every reachable state, an update that returns an error (of any kind, at any write) leaves the
+   served state exactly as it was; a rejected one leaves the storage as it was, too *)
+Theorem rejected_update_changes_nothing_pf ops u f w st' o e :
+  step (run_state step init_state ops) (OUpdate u f w) = (st', o) ->
+  o_res o = RErr e ->
+  st_live st' = st_live (run_state step init_state ops) /\
+  (e <> EStorage -> st_store st' = st_store (run_state step init_state ops)).
+Proof.
+  pose proof (reachable_canonical ops) as Hc. set (st := run_state step init_state ops) in *.
+  cbn [step]. unfold step_update, live_canonical in *.
+  destruct (st_live st) as [m|] eqn:El.
+  - destruct (make_patch (m_conf m) u) as [p|].
+    + destruct (try_commit m (st_store st) p w f) as [[[m' s'] e'] ok] eqn:Et.
+      intros H Hr. inversion H; subst. cbn [o_res observe st_live st_store] in *.
+      destruct ok; [|discriminate]. destruct e' as [e'|]; [|discriminate]. inversion Hr; subst e'.
+      destruct (failed_update_changes_nothing m (st_store st) p w f m' s' e true Hc Et) as [-> Hs].
+      split; [first [reflexivity|symmetry; exact El]|]. intros Hne.
+      assert (e = EBuild).
+      { unfold try_commit in Et. destruct (patch_adjust (m_conf m) p) as [c1 p1].
+        destruct (build_rule_list (patch_view c1 p1)); [inversion Et; reflexivity|].
+        destruct (save_patch (patch_trim c1 p1) w f (st_store st)) as [[? failed] ?].
+        destruct failed; inversion Et; subst. congruence. }
+      apply Hs; assumption.
+    + intros H _. injection H as <- _. split; [exact El|reflexivity].
+  - intros H _. injection H as <- _. split; [exact El|reflexivity].
 Qed.
 
 (* ---------- statements at the level of buildRuleList (used by props/C13.v) ---------- *)
